@@ -29,6 +29,8 @@ ASSUMPTIONS = [
 ]
 SIG = "C08|{}|{}"
 V = [0.5, 2.0, 4.0]
+KNOWN_BUF = {"buffer", "Batch", "buffer_size", "current_len", "insert_idx", "priority", "mask_", "episode_timesteps", "environment_terminates", "horizon"}
+KNOWN_PRI = {"priority", "max_priority", "sampled_indices"}
 BUDGET_S = {"quick": 480, "thorough": 2400}
 
 
@@ -387,6 +389,8 @@ def canon(bd):
         c = (bf.insert_idx, n, tuple(float(x) for x in pri(bf)[:n]), float(bf.priority.max_priority))
         if hasattr(bf, "mask_"):
             c += (tuple(int(x) for x in bf.mask_), min(bf.episode_timesteps, bd.cfg["H"] + 1))
+        # anything the abstraction does not know about (e.g. a cache added by a later change) is state too
+        c += (e1.hidden_state(bf, KNOWN_BUF), e1.hidden_state(bf.priority, KNOWN_PRI))
         out.append(c)
     last = (bd.last[0], tuple(bd.last[1])) if (bd.last is not None and bd.fresh) else None
     return (tuple(out), bd.sel, last)
